@@ -207,6 +207,12 @@ def run(ctx):
                     check(ctx, mk(h, path="/" + tt + "/x" + tt), ("path", cls, hk))
                     check(ctx, mk(h, q=[(tt, "v"), ("k", tt)]), ("query", cls, hk))
                     check(ctx, mk(h, fragment=tt), ("fragment", cls, hk))
+        # SIZE: queries with very many pairs, very long values and components (nothing in the statement bounds them)
+        for n_ in (200, 1001, 5000):
+            check(ctx, mk("bücher.example", user="ю", path="/п", q=[(f"к{i_}", f"з {i_}") for i_ in range(n_)], fragment="ф"), ("many-pairs", n_), _derived=True)
+        for L_ in (9000, 70000):
+            check(ctx, mk("例え.jp", password="п" * 300, path="/" + "é " * (L_ // 2), q=[("k", "ж&" * (L_ // 2))], fragment="я#" * 2000), ("long-texts", L_), _derived=True)
+        ctx.count("size_cases")
         ctx.sample({"kw": mk("bücher.example", user="a@b", password="p:w/d", path="/é #?", q=[("k&", "v=+;")], fragment="f#%")})
         return
     if ctx.part == "shapes":
